@@ -1924,3 +1924,832 @@ Section TextDecode.
     - intros r Hr. apply parse_row. apply (vrows_root_depth t r Hr).
   Qed.
 End TextDecode.
+
+(* ============================================================================================== *)
+(* 12. horizontal rendering: column bands *)
+
+(* width of the band of depth d including its connector column *)
+Definition cellw (inter : bool) (ws : list nat) (d : nat) : nat :=
+  S (if inter then pad_at ws d + 4 else 3).
+(* offset of the band of depth d+n relative to the band of depth d *)
+Fixpoint colw (inter : bool) (ws : list nat) (d n : nat) : nat :=
+  match n with 0 => 0 | S n' => cellw inter ws d + colw inter ws (S d) n' end.
+
+(* per row of the block of t: the leaf cell the row ends in and the depth of that leaf relative to
+   t (a separating row: no cell, it ends right after t's own band) *)
+Definition up (e : str * nat) : str * nat := (fst e, S (snd e)).
+
+Fixpoint hends (st : hstyle) (ws : list nat) (d : nat) (t : tree) : list (str * nat) :=
+  match t with
+  | T _ _ _ ks =>
+      if is_hole t || negb (existsb real ks) then [(hleaf_cell st ws d t, 0)]
+      else
+        let es := (fix go (l : list tree) : list (list (str * nat)) :=
+                     match l with [] => [] | k :: r => map up (hends st ws (S d) k) :: go r end) ks in
+        match es with
+        | [[e0]; [e1]] => [e0; ([], 1); e1]
+        | _ => concat es
+        end
+  end.
+
+Lemma hends_eq st ws d g n a ks :
+  hends st ws d (T g n a ks) =
+  if is_hole (T g n a ks) || negb (existsb real ks) then [(hleaf_cell st ws d (T g n a ks), 0)]
+  else let es := map (fun k => map up (hends st ws (S d) k)) ks in
+       match es with
+       | [[e0]; [e1]] => [e0; ([], 1); e1]
+       | _ => concat es
+       end.
+Proof.
+  cbn [hends].
+  replace ((fix go (l : list tree) : list (list (str * nat)) :=
+              match l with [] => [] | k :: r => map up (hends st ws (S d) k) :: go r end) ks)
+    with (map (fun k => map up (hends st ws (S d) k)) ks); [reflexivity|].
+  induction ks as [|k r IH]; [reflexivity|]. cbn [map]. rewrite IH. reflexivity.
+Qed.
+
+Lemma hends_suffixes st ws : forall t d, map fst (hends st ws d t) = hsuffixes st ws d t.
+Proof.
+  induction t as [g n a ks IH] using tree_ind'. intros d.
+  rewrite hends_eq, hsuffixes_eq. cbv zeta.
+  destruct (is_hole (T g n a ks) || negb (existsb real ks)); [reflexivity|].
+  assert (HK : map (map fst) (map (fun k => map up (hends st ws (S d) k)) ks)
+               = map (hsuffixes st ws (S d)) ks).
+  { rewrite map_map. apply map_ext_in. intros k Hk. rewrite map_map. cbn [up fst].
+    rewrite Forall_forall in IH. apply (IH k Hk). }
+  rewrite <- HK. generalize (map (fun k => map up (hends st ws (S d) k)) ks) as es. intros es.
+  assert (HC : map fst (concat es) = concat (map (map fst) es)).
+  { clear. induction es as [|x es IH]; [reflexivity|]. cbn [concat map]. rewrite map_app, IH. reflexivity. }
+  destruct es as [|[|e0 [|? ?]] [|[|e1 [|? ?]] [|? ?]]]; try exact HC; reflexivity.
+Qed.
+
+(* names fit into the band of their depth (nothing is asked of an empty slot) *)
+Fixpoint fits (ws : list nat) (d : nat) (t : tree) : Prop :=
+  match t with
+  | T g n a ks =>
+      if is_hole (T g n a ks) then True
+      else length n <= pad_at ws d
+           /\ (fix go (l : list tree) : Prop :=
+                 match l with [] => True | k :: r => fits ws (S d) k /\ go r end) ks
+  end.
+Lemma fits_eq ws d g n a ks :
+  is_hole (T g n a ks) = false ->
+  (fits ws d (T g n a ks) <-> length n <= pad_at ws d /\ Forall (fits ws (S d)) ks).
+Proof.
+  intros Hh. cbn [fits]. rewrite Hh. clear Hh. split; intros [H1 H2]; split; try exact H1; clear H1.
+  - induction ks as [|k r IH]; [constructor|]. destruct H2 as [Hk Hr]. constructor; [exact Hk|apply IH; exact Hr].
+  - induction H2 as [|k r Hk Hr IH]; [exact I|]. split; [exact Hk|exact IH].
+Qed.
+Lemma fits_hole ws d t : is_hole t = true -> fits ws d t.
+Proof. destruct t as [g n a ks]. intros H. cbn [fits]. rewrite H. exact I. Qed.
+
+Lemma center_length s w : length s <= w -> length (center s w) = w.
+Proof.
+  intros H. unfold center, spaces. rewrite !app_length, !repeat_length.
+  set (marg := w - length s).
+  pose proof (Nat.div2_odd marg) as HD.
+  destruct (Nat.odd marg); destruct (Nat.odd w); cbn [andb Nat.b2n] in *; lia.
+Qed.
+
+Lemma zip_with_app_lengths {B} (L : nat) (g : B -> nat) pre : forall Q E,
+  Forall (fun p : str => length p = L) pre ->
+  Forall2 (fun (p : str) e => L + length p = g e) Q E ->
+  length Q <= length pre ->
+  Forall2 (fun (p : str) e => length p = g e) (zip_with (@app N) pre Q) E.
+Proof.
+  induction pre as [|a pre IH]; intros Q E HP HF HL.
+  - destruct Q; [|cbn in HL; lia]. inversion HF; subst. constructor.
+  - inversion HF as [|q e Q' E' Hq HF']; subst; [constructor|].
+    inversion HP; subst. cbn [zip_with]. constructor.
+    + rewrite app_length. unfold str in *. lia.
+    + apply IH; auto. cbn in HL. lia.
+Qed.
+
+Lemma Forall2_concat {A B} (R : A -> B -> Prop) (X : list (list A)) (Y : list (list B)) :
+  Forall2 (Forall2 R) X Y -> Forall2 R (concat X) (concat Y).
+Proof.
+  induction 1 as [|x y X' Y' H HF IH]; [constructor|]. cbn [concat].
+  apply Forall2_app; assumption.
+Qed.
+
+Lemma Forall2_length_eq {A B} (R : A -> B -> Prop) l1 l2 : Forall2 R l1 l2 -> length l1 = length l2.
+Proof. induction 1; cbn; congruence. Qed.
+
+Lemma hends_length st ws t d : length (hends st ws d t) = hrows t.
+Proof. rewrite <- (map_length fst), hends_suffixes. apply hsuffixes_length. Qed.
+
+Lemma gap_test_iff (b0 b1 : hblock) :
+  blk_good b0 -> blk_good b1 ->
+  (Nat.eqb (length (fst (fst b0)) + snd (fst b1) - snd (fst b0)) 1 = true
+   <-> blk_rows b0 = 1 /\ blk_rows b1 = 1).
+Proof.
+  intros [_ [A0 B0]] [_ [A1 B1]]. unfold blk_rows, blk_mid in *. rewrite Nat.eqb_eq.
+  unfold hblock, str in *. lia.
+Qed.
+
+Lemma concat_map_fst {A B} (es : list (list (A * B))) :
+  map fst (concat es) = concat (map (map fst) es).
+Proof. induction es as [|x es IH]; [reflexivity|]. cbn [concat map]. rewrite map_app, IH. reflexivity. Qed.
+
+Lemma Forall2_weaken {A B} (R1 R2 : A -> B -> Prop) l1 l2 :
+  (forall a b, R1 a b -> R2 a b) -> Forall2 R1 l1 l2 -> Forall2 R2 l1 l2.
+Proof. intros H. induction 1; constructor; auto. Qed.
+
+Lemma Forall2_map_r {A B C} (R : A -> C -> Prop) (f : B -> C) l1 l2 :
+  Forall2 (fun a b => R a (f b)) l1 l2 -> Forall2 R l1 (map f l2).
+Proof. induction 1; cbn; constructor; auto. Qed.
+
+Definition gap_match (es : list (list (str * nat))) : list (str * nat) :=
+  match es with
+  | [[e0]; [e1]] => [e0; ([], 1); e1]
+  | _ => concat es
+  end.
+
+Lemma gap_match_plain es :
+  ~ (exists e0 e1, es = [[e0]; [e1]]) -> gap_match es = concat es.
+Proof.
+  intros H. destruct es as [|[|e0 [|? ?]] [|[|e1 [|? ?]] [|? ?]]]; try reflexivity.
+  exfalso. apply H. eauto.
+Qed.
+
+Lemma classic_gap (es : list (list (str * nat))) :
+  (exists e0 e1, es = [[e0]; [e1]]) \/ ~ (exists e0 e1, es = [[e0]; [e1]]).
+Proof.
+  destruct es as [|[|e0 [|? ?]] [|[|e1 [|? ?]] [|? ?]]];
+    try (right; intros [x [y H]]; discriminate). left. eauto.
+Qed.
+
+Section Bands.
+  Variables (st : hstyle) (inter : bool) (ws : list nat).
+
+  Definition band_ok (d : nat) (t : tree) (P : list str) : Prop :=
+    fst (fst (hbranch st inter ws d t)) = zip_with (@app N) P (map fst (hends st ws d t))
+    /\ Forall2 (fun (p : str) e => length p = colw inter ws d (snd e)) P (hends st ws d t).
+
+  (* the children's rows, child by child *)
+  Lemma bands_kids ks d :
+    Forall (fun k => exists P, band_ok (S d) k P) ks ->
+    exists Ps,
+      Forall2 (Forall2 (fun (p : str) e => length p = colw inter ws (S d) (snd e))) Ps
+              (map (hends st ws (S d)) ks)
+      /\ map (fun x : hblock => fst (fst x)) (map (hbranch st inter ws (S d)) ks)
+         = map (fun ps : list str * list str => zip_with (@app N) (fst ps) (snd ps))
+               (combine Ps (map (fun k => map fst (hends st ws (S d) k)) ks)).
+  Proof.
+    induction 1 as [|k r [P [E F]] Hr [Ps [FF EE]]].
+    - exists []. split; [constructor|reflexivity].
+    - exists (P :: Ps). split; [constructor; assumption|].
+      cbn [map combine fst snd]. rewrite E, EE. reflexivity.
+  Qed.
+
+  Theorem hbranch_bands : forall t d,
+    (inter = true -> fits ws d t) -> exists P, band_ok d t P.
+  Proof.
+    induction t as [g n a ks IH] using tree_ind'. intros d HFit.
+    unfold band_ok. rewrite hbranch_eq, hends_eq. cbv zeta.
+    fold (gap_match (map (fun k => map up (hends st ws (S d) k)) ks)).
+    destruct (is_hole (T g n a ks) || negb (existsb real ks)) eqn:E.
+    - exists [[]]. split; [reflexivity|]. constructor; [reflexivity|constructor].
+    - apply orb_false_iff in E as [Ehole Ereal]. apply negb_false_iff in Ereal.
+      rewrite Ehole.
+      set (centered := center n (pad_at ws d)).
+      set (sub := map (hbranch st inter ws (S d)) ks).
+      set (es := map (fun k => map up (hends st ws (S d) k)) ks).
+      assert (Hne : sub <> []).
+      { unfold sub. destruct ks; [discriminate|discriminate]. }
+      (* children *)
+      assert (HK : Forall (fun k => exists P, band_ok (S d) k P) ks).
+      { apply Forall_forall. intros k Hk. rewrite Forall_forall in IH. apply (IH k Hk).
+        intros Hi. specialize (HFit Hi). apply (fits_eq _ _ _ _ _ _ Ehole) in HFit as [_ HF].
+        rewrite Forall_forall in HF. apply HF. exact Hk. }
+      destruct (bands_kids ks d HK) as [Ps [FF EM]]. fold sub in EM.
+      (* the prefix column *)
+      destruct (hassemble_shape st inter centered sub Hne) as [prefix [EH HW]].
+      assert (HL : S (length (hnode_str st inter centered)) = cellw inter ws d).
+      { unfold hnode_str, cellw. destruct inter; [|reflexivity].
+        rewrite !app_length. unfold centered. rewrite center_length.
+        - cbn [length]. lia.
+        - specialize (HFit eq_refl). apply (fits_eq _ _ _ _ _ _ Ehole) in HFit as [H1 _]. exact H1. }
+      rewrite HL in HW.
+      assert (HG : Forall blk_good sub).
+      { unfold sub. apply Forall_forall. intros b Hb. apply in_map_iff in Hb as [k [<- Hk]].
+        apply (hbranch_good st inter ws k (S d)). }
+      assert (HRows : blk_rows (hassemble st inter centered sub) = length (gap_match es)).
+      { pose proof (hbranch_good st inter ws (T g n a ks) d) as [_ R].
+        rewrite hbranch_eq in R. cbv zeta in R. rewrite Ehole, Ereal in R. cbn [orb negb] in R.
+        fold centered sub in R. rewrite R.
+        pose proof (hends_length st ws (T g n a ks) d) as HE. rewrite hends_eq in HE. cbv zeta in HE.
+        rewrite Ehole, Ereal in HE. cbn [orb negb] in HE. fold es in HE. fold (gap_match es) in HE.
+        symmetry. exact HE. }
+      assert (HS : map (map fst) es = map (fun k => map fst (hends st ws (S d) k)) ks).
+      { unfold es. rewrite map_map. apply map_ext. intros k. rewrite map_map. reflexivity. }
+      assert (FL : Forall2 (fun (p s : list str) => length p = length s) Ps
+                           (map (fun k => map fst (hends st ws (S d) k)) ks)).
+      { clear -FF. revert Ps FF. induction ks as [|k r IHr]; intros Ps FF; inversion FF; subst; constructor.
+        - rewrite map_length. eapply Forall2_length_eq. eassumption.
+        - apply IHr. assumption. }
+      assert (FE : Forall2 (fun (p : str) e => cellw inter ws d + length p = colw inter ws d (snd e))
+                           (concat Ps) (concat es)).
+      { apply Forall2_concat. unfold es. clear -FF. revert Ps FF.
+        induction ks as [|k r IHr]; intros Ps FF; inversion FF; subst; constructor.
+        - apply Forall2_map_r. eapply Forall2_weaken; [|eassumption].
+          intros p e H. cbn [up snd colw]. rewrite H. reflexivity.
+        - apply IHr. assumption. }
+      assert (ERes : concat (map (fun x : hblock => fst (fst x)) sub)
+                     = zip_with (@app N) (concat Ps) (map fst (concat es))).
+      { pose proof (zip_with_app_concat _ _ FL) as EC. rewrite EM. unfold str in *.
+        rewrite EC, concat_map_fst, HS. reflexivity. }
+      assert (HLen : length (concat Ps) = length (concat es)) by (eapply Forall2_length_eq; exact FE).
+      assert (ES0 : sub = map (hbranch st inter ws (S d)) ks) by reflexivity.
+      assert (EE0 : es = map (fun k => map up (hends st ws (S d) k)) ks) by reflexivity.
+      clearbody sub es.
+      assert (HRL : length (fst (fst (hassemble st inter centered sub))) = length (gap_match es))
+        by exact HRows.
+      destruct (classic_gap es) as [[e0 [e1 Ees]]|Hng].
+      + (* two children of one row each: a separating row *)
+        subst es. destruct ks as [|k0 [|k1 [|k2 r]]]; try discriminate.
+        cbn [map] in *. injection Ees as Ee0 Ee1.
+        subst sub.
+        inversion FF as [|P0 ? Ps' ? F0 FF']; subst. inversion FF' as [|P1 ? Ps'' ? F1 FF'']; subst.
+        inversion FF''; subst.
+        destruct (hends st ws (S d) k0) as [|x0 [|? ?]] eqn:EK0; try discriminate.
+        destruct (hends st ws (S d) k1) as [|x1 [|? ?]] eqn:EK1; try discriminate.
+        inversion F0 as [|p0 ? ? ? L0 F0']; subst. inversion F0'; subst.
+        inversion F1 as [|p1 ? ? ? L1 F1']; subst. inversion F1'; subst.
+        cbn [map up] in Ee0, Ee1. injection Ee0 as <-. injection Ee1 as <-.
+        inversion HG as [|? ? G0 HG1]; subst. inversion HG1 as [|? ? G1 _]; subst.
+        assert (HT : Nat.eqb (length (fst (fst (hbranch st inter ws (S d) k0)))
+                              + snd (fst (hbranch st inter ws (S d) k1))
+                              - snd (fst (hbranch st inter ws (S d) k0))) 1 = true).
+        { apply (gap_test_iff _ _ G0 G1). split.
+          - rewrite (proj2 (hbranch_good st inter ws k0 (S d))), <- (hends_length st ws k0 (S d)), EK0. reflexivity.
+          - rewrite (proj2 (hbranch_good st inter ws k1 (S d))), <- (hends_length st ws k1 (S d)), EK1. reflexivity. }
+        cbv zeta in EH. rewrite HT in EH. rewrite ERes in EH.
+        cbn [concat app map fst zip_with nth gap_match] in EH, HRL |- *.
+        rewrite EH in HRL. rewrite zip_with_length in HRL. cbn [length] in HRL.
+        destruct prefix as [|a0 [|a1 [|a2 rest']]]; try (cbn in HRL; lia).
+        exists [a0 ++ p0; a1; a2 ++ p1]. split.
+        * rewrite EH. cbn [zip_with up fst]. rewrite <- !app_assoc, !app_nil_r.
+          destruct rest'; reflexivity.
+        * inversion HW as [|? ? W0 HW1]; subst. inversion HW1 as [|? ? W1 HW2]; subst.
+          inversion HW2 as [|? ? W2 _]; subst.
+          cbn [concat app] in FE. inversion FE as [|? ? ? ? Q0 FE1]; subst.
+          inversion FE1 as [|? ? ? ? Q1 _]; subst.
+          constructor; [|constructor; [|constructor; [|constructor]]].
+          -- rewrite app_length. unfold str in *. lia.
+          -- cbn [snd colw]. unfold str in *. lia.
+          -- rewrite app_length. unfold str in *. lia.
+      + (* the general case: every row of a child keeps its place *)
+        rewrite (gap_match_plain es Hng) in *.
+        assert (EH' : fst (fst (hassemble st inter centered sub))
+                      = zip_with (@app N) prefix (concat (map (fun x : hblock => fst (fst x)) sub))).
+        { cbv zeta in EH. destruct sub as [|b0 [|b1 [|b2 rest]]]; try exact EH.
+          destruct (Nat.eqb (length (fst (fst b0)) + snd (fst b1) - snd (fst b0)) 1) eqn:EG; [|exact EH].
+          exfalso. apply Hng.
+          inversion HG as [|? ? G0 HG1]; subst. inversion HG1 as [|? ? G1 _]; subst.
+          apply (gap_test_iff _ _ G0 G1) in EG as [R0 R1].
+          destruct ks as [|k0 [|k1 [|k2 r]]]; try discriminate.
+          cbn [map] in ES0. injection ES0 as -> ->. cbn [map].
+          rewrite (proj2 (hbranch_good st inter ws k0 (S d))), <- (hends_length st ws k0 (S d)) in R0.
+          rewrite (proj2 (hbranch_good st inter ws k1 (S d))), <- (hends_length st ws k1 (S d)) in R1.
+          destruct (hends st ws (S d) k0) as [|x0 [|? ?]]; try discriminate.
+          destruct (hends st ws (S d) k1) as [|x1 [|? ?]]; try discriminate.
+          cbn [map]. eauto. }
+        rewrite ERes, zip_with_app_assoc in EH'.
+        exists (zip_with (@app N) prefix (concat Ps)). split; [exact EH'|].
+        apply (zip_with_app_lengths (cellw inter ws d) (fun e : str * nat => colw inter ws d (snd e)));
+          [exact HW|exact FE|].
+        rewrite EH' in HRL. rewrite !zip_with_length, map_length in HRL.
+        unfold str in *. lia.
+  Qed.
+End Bands.
+
+
+(* the widths computed by hyield_tree (longest name of every level) do fit *)
+Lemma max_list_ge l x : In x l -> x <= max_list l.
+Proof.
+  induction l as [|y l IH]; intros Hin; [destruct Hin|].
+  unfold max_list in *. cbn [fold_right]. destruct Hin as [<-|H].
+  - apply Nat.le_max_l.
+  - specialize (IH H). lia.
+Qed.
+
+Lemma level_height : forall k t, level k t <> [] -> k < height t.
+Proof.
+  induction k as [|k IH]; intros [g n a ks] H; cbn [height]; [lia|].
+  cbn [level tkids] in H. apply -> Nat.succ_lt_mono.
+  induction ks as [|x ks IHk]; [contradiction|]. cbn [flat_map fold_right] in *.
+  destruct (level k x) as [|y l] eqn:E.
+  - cbn [app] in H. specialize (IHk H). lia.
+  - assert (k < height x) by (apply IH; rewrite E; discriminate). lia.
+Qed.
+
+Definition compact_kids (ks : list tree) : list tree :=
+  (fix go (l : list tree) : list tree :=
+     match l with [] => [] | k :: r => if is_hole k then go r else compact k :: go r end) ks.
+Lemma compact_eq g n a ks : compact (T g n a ks) = T g n a (compact_kids ks).
+Proof. reflexivity. Qed.
+Lemma compact_kids_in k ks : In k ks -> is_hole k = false -> In (compact k) (compact_kids ks).
+Proof.
+  induction ks as [|x ks IH]; intros Hin Hk; [destruct Hin|]. cbn. destruct Hin as [->|H].
+  - rewrite Hk. left. reflexivity.
+  - destruct (is_hole x); [|right]; apply IH; assumption.
+Qed.
+
+Lemma level_kid k x ks y : In x ks -> In y (level k x) -> In y (flat_map (level k) ks).
+Proof. intros Hx Hy. apply in_flat_map. exists x. split; assumption. Qed.
+
+(* if every name of level k of the existing nodes is at most pad_at ws (d + k) long, all names fit *)
+Lemma fits_of_levels (ws : list nat) : forall t d,
+  (forall k x, In x (level k (compact t)) -> length (tname x) <= pad_at ws (d + k)) ->
+  fits ws d t.
+Proof.
+  induction t as [g n a ks IH] using tree_ind'. intros d HL.
+  destruct (is_hole (T g n a ks)) eqn:Hh; [apply fits_hole; exact Hh|].
+  apply (fits_eq _ _ _ _ _ _ Hh). split.
+  - specialize (HL 0 (compact (T g n a ks))). rewrite Nat.add_0_r in HL.
+    apply HL. left. reflexivity.
+  - apply Forall_forall. intros k Hk.
+    destruct (is_hole k) eqn:EK; [apply fits_hole; exact EK|].
+    rewrite Forall_forall in IH. apply (IH k Hk (S d)).
+    intros j x Hx. replace (S d + j) with (d + S j) by lia. apply HL.
+    rewrite compact_eq. cbn [level tkids].
+    apply (level_kid j (compact k)); [|exact Hx]. apply compact_kids_in; assumption.
+Qed.
+
+Lemma padding_depths_fits t : fits (padding_depths true t) 1 t.
+Proof.
+  apply fits_of_levels. intros k x Hx. unfold pad_at. cbn [Nat.add Nat.sub]. rewrite Nat.sub_0_r.
+  unfold padding_depths.
+  assert (Hk : k < height (compact t)) by (apply level_height; intros E; rewrite E in Hx; destruct Hx).
+  rewrite (nth_indep _ 0 (level_width (compact t) 0)) by (rewrite map_length, seq_length; exact Hk).
+  rewrite map_nth, seq_nth by exact Hk. cbn [Nat.add].
+  unfold level_width. apply max_list_ge. apply in_map_iff. exists x. split; [reflexivity|exact Hx].
+Qed.
+
+(* column bands of hyield_tree: every row is (cells of the bands 1 .. e-1) ++ (cell of a leaf of
+   depth e); the band of depth d+1 begins cellw d columns after the band of depth d *)
+Theorem hyield_bands st inter t :
+  exists rows P, hyield_rows st inter t = Ret rows
+    /\ rows = zip_with (@app N) P (map fst (hends st (padding_depths inter t) 1 t))
+    /\ Forall2 (fun (p : str) e => length p = colw inter (padding_depths inter t) 1 (snd e))
+               P (hends st (padding_depths inter t) 1 t).
+Proof.
+  destruct (hyield_rows_spec st inter t) as [rows [ER _]].
+  destruct (hbranch_bands st inter (padding_depths inter t) t 1) as [P [EP FP]].
+  { intros ->. apply padding_depths_fits. }
+  exists rows, P. split; [exact ER|].
+  unfold hyield_rows in ER.
+  destruct (hbranch st inter (padding_depths inter t) 1 t) as [[rows' mid] ok].
+  destruct ok; [|discriminate]. inversion ER; subst rows'. cbn [fst] in EP. split; assumption.
+Qed.
+
+(* ============================================================================================== *)
+(* 13. horizontal rendering: the connector column joins a parent to exactly its children *)
+
+Lemma map_seq_app {A} (F : nat -> A) a x y :
+  map F (seq a (x + y)) = map F (seq a x) ++ map F (seq (a + x) y).
+Proof. rewrite seq_app, map_app. reflexivity. Qed.
+
+Lemma map_seq_const {A} (F : nat -> A) c a k :
+  (forall i, a <= i < a + k -> F i = c) -> map F (seq a k) = repeat c k.
+Proof.
+  revert a. induction k as [|k IH]; intros a H; [reflexivity|]. cbn [seq map repeat]. f_equal.
+  - apply H. lia.
+  - apply IH. intros i Hi. apply H. lia.
+Qed.
+
+Lemma set_nth_map_seq {A} (F : nat -> A) X n : forall a m, m < n ->
+  set_nth m X (map F (seq a n)) = map (fun i => if Nat.eqb i (a + m) then X else F i) (seq a n).
+Proof.
+  induction n as [|n IH]; intros a m Hm; [lia|]. cbn [seq map]. destruct m as [|m]; cbn [set_nth].
+  - rewrite Nat.add_0_r, Nat.eqb_refl. f_equal. apply map_ext_in. intros i Hi. apply in_seq in Hi.
+    replace (Nat.eqb i a) with false; [reflexivity|]. symmetry. apply Nat.eqb_neq. lia.
+  - replace (Nat.eqb a (a + S m)) with false by (symmetry; apply Nat.eqb_neq; lia). f_equal.
+    rewrite IH by lia. apply map_ext. intros i. replace (S a + m) with (a + S m) by lia. reflexivity.
+Qed.
+
+Lemma incr_tail a B : incr (a :: B) -> incr B.
+Proof. destruct B as [|b B]; [intros; exact I|]. intros [_ H]. exact H. Qed.
+
+Lemma incr_lt a B : incr (a :: B) -> forall x, In x B -> a < x.
+Proof.
+  revert a. induction B as [|b B IH]; intros a H x Hx; [destruct Hx|].
+  destruct H as [Hab H]. destruct Hx as [<-|Hx]; [exact Hab|]. specialize (IH b H x Hx). lia.
+Qed.
+
+Lemma incr_le_last a B : incr (a :: B) -> forall x, In x (a :: B) -> x <= List.last (a :: B) 0.
+Proof.
+  revert a. induction B as [|b B IH]; intros a H x Hx.
+  - destruct Hx as [<-|[]]. cbn. lia.
+  - change (List.last (a :: b :: B) 0) with (List.last (b :: B) 0). destruct H as [Hab H].
+    destruct Hx as [<-|Hx].
+    + assert (b <= List.last (b :: B) 0) by (apply IH; [exact H|left; reflexivity]). lia.
+    + apply IH; assumption.
+Qed.
+
+Lemma memb_false i B : (forall x, In x B -> x <> i) -> memb i B = false.
+Proof.
+  intros H. unfold memb. destruct (existsb (Nat.eqb i) B) eqn:E; [|reflexivity].
+  apply existsb_exists in E as [x [Hx Ex]]. apply Nat.eqb_eq in Ex. subst. exfalso. apply (H x Hx). reflexivity.
+Qed.
+Lemma memb_true i B : In i B -> memb i B = true.
+Proof. intros H. unfold memb. apply existsb_exists. exists i. split; [exact H|apply Nat.eqb_refl]. Qed.
+
+Section Connectors.
+  Variable st : hstyle.
+
+  (* the connector icon of row i of a block whose children have their branch rows at B (increasing)
+     and whose own branch row is mid *)
+  Definition conn (B : list nat) (mid i : nat) : N :=
+    let lo := hd 0 B in
+    let hi := List.last B 0 in
+    if memb i B then
+      if Nat.eqb i mid then match B with [_] => hs_branch st | _ => hs_middle st end
+      else if Nat.eqb i lo then hs_first st
+      else if Nat.eqb i hi then hs_last st else hs_subseq st
+    else if Nat.ltb lo i && Nat.ltb i hi then (if Nat.eqb i mid then hs_split st else hs_stem st)
+    else 32%N.
+
+  (* the same before the parent's own row is written *)
+  Definition conn0 (B : list nat) (i : nat) : N :=
+    let lo := hd 0 B in
+    let hi := List.last B 0 in
+    if memb i B then
+      if Nat.eqb i lo then hs_first st else if Nat.eqb i hi then hs_last st else hs_subseq st
+    else if Nat.ltb lo i && Nat.ltb i hi then hs_stem st else 32%N.
+
+  Variable pad : str.
+  Let P (g : N) : str := pad ++ [g].
+
+  Definition diffs (B : list nat) : list nat := zip_with (fun a b => b - a - 1) B (tl B).
+
+  Definition tailseg (B : list nat) : list str :=
+    concat (map (fun n => repeat (P (hs_stem st)) n ++ [P (hs_subseq st)]) (removelast (diffs B)))
+    ++ repeat (P (hs_stem st)) (List.last (diffs B) 0) ++ [P (hs_last st)].
+
+  Lemma conn0_shift b0 b1 B i :
+    incr (b0 :: b1 :: B) -> b1 < i -> conn0 (b0 :: b1 :: B) i = conn0 (b1 :: B) i.
+  Proof.
+    intros HI Hi. unfold conn0.
+    change (List.last (b0 :: b1 :: B) 0) with (List.last (b1 :: B) 0). cbn [hd].
+    destruct HI as [H01 HI].
+    assert (Em : memb i (b0 :: b1 :: B) = memb i (b1 :: B)).
+    { unfold memb. cbn [existsb]. replace (Nat.eqb i b0) with false; [reflexivity|].
+      symmetry. apply Nat.eqb_neq. lia. }
+    rewrite Em.
+    replace (Nat.eqb i b0) with false by (symmetry; apply Nat.eqb_neq; lia).
+    replace (Nat.eqb i b1) with false by (symmetry; apply Nat.eqb_neq; lia).
+    replace (Nat.ltb b0 i) with true by (symmetry; apply Nat.ltb_lt; lia).
+    replace (Nat.ltb b1 i) with true by (symmetry; apply Nat.ltb_lt; lia).
+    reflexivity.
+  Qed.
+
+  Lemma tailseg_spec : forall B b0,
+    incr (b0 :: B) -> B <> [] ->
+    tailseg (b0 :: B) = map (fun i => P (conn0 (b0 :: B) i)) (seq (S b0) (List.last (b0 :: B) 0 - b0)).
+  Proof.
+    induction B as [|b1 B IH]; intros b0 HI HN; [contradiction|].
+    destruct B as [|b2 B].
+    - (* two branch rows: stems, then the last child *)
+      destruct HI as [H01 _]. unfold tailseg, diffs. cbn [tl zip_with removelast map concat List.last app].
+      set (k := b1 - b0 - 1). replace (b1 - b0) with (k + 1) by (unfold k; lia). rewrite map_seq_app. f_equal.
+      + symmetry. apply map_seq_const. intros i Hi. unfold k in Hi. unfold conn0. cbn [hd List.last].
+        rewrite memb_false by (intros x [<-|[<-|[]]]; lia).
+        replace (Nat.ltb b0 i) with true by (symmetry; apply Nat.ltb_lt; lia).
+        replace (Nat.ltb i b1) with true by (symmetry; apply Nat.ltb_lt; lia). reflexivity.
+      + cbn [seq map]. replace (S b0 + k) with b1 by (unfold k; lia). unfold conn0. cbn [hd List.last].
+        rewrite memb_true by (right; left; reflexivity).
+        replace (Nat.eqb b1 b0) with false by (symmetry; apply Nat.eqb_neq; lia).
+        rewrite Nat.eqb_refl. reflexivity.
+    - (* a middle child, then the rest *)
+      pose proof HI as [H01 HI1]. pose proof HI1 as [H12 _].
+      assert (Hl : b2 <= List.last (b2 :: B) 0).
+      { apply (incr_le_last b2 B); [apply (incr_tail b1); exact HI1|left; reflexivity]. }
+      unfold tailseg, diffs.
+      change (tl (b0 :: b1 :: b2 :: B)) with (b1 :: b2 :: B).
+      change (zip_with (fun a b => b - a - 1) (b0 :: b1 :: b2 :: B) (b1 :: b2 :: B))
+        with ((b1 - b0 - 1) :: zip_with (fun a b => b - a - 1) (b1 :: b2 :: B) (tl (b1 :: b2 :: B))).
+      fold (diffs (b1 :: b2 :: B)).
+      assert (HD : diffs (b1 :: b2 :: B) <> []) by (unfold diffs; cbn; discriminate).
+      destruct (diffs (b1 :: b2 :: B)) as [|x xs] eqn:ED; [contradiction|].
+      change (removelast ((b1 - b0 - 1) :: x :: xs)) with ((b1 - b0 - 1) :: removelast (x :: xs)).
+      change (List.last ((b1 - b0 - 1) :: x :: xs) 0) with (List.last (x :: xs) 0).
+      cbn [map concat]. rewrite <- !app_assoc.
+      specialize (IH b1 HI1 ltac:(discriminate)). unfold tailseg in IH. rewrite ED in IH.
+      rewrite IH.
+      change (List.last (b0 :: b1 :: b2 :: B) 0) with (List.last (b2 :: B) 0).
+      change (List.last (b1 :: b2 :: B) 0) with (List.last (b2 :: B) 0).
+      replace (List.last (b2 :: B) 0 - b0)
+        with ((b1 - b0 - 1) + (1 + (List.last (b2 :: B) 0 - b1))) by lia.
+      rewrite !map_seq_app. f_equal; [|f_equal].
+      + symmetry. apply map_seq_const. intros i Hi. unfold conn0. cbn [hd].
+        rewrite memb_false.
+        * replace (Nat.ltb b0 i) with true by (symmetry; apply Nat.ltb_lt; lia).
+          change (List.last (b0 :: b1 :: b2 :: B) 0) with (List.last (b2 :: B) 0).
+          replace (Nat.ltb i (List.last (b2 :: B) 0)) with true by (symmetry; apply Nat.ltb_lt; lia).
+          reflexivity.
+        * intros y [<-|Hy]; [lia|]. assert (b1 <= y); [|lia].
+          destruct Hy as [<-|Hy]; [lia|]. pose proof (incr_lt b1 (b2 :: B) HI1 y Hy). lia.
+      + cbn [seq map]. replace (S b0 + (b1 - b0 - 1)) with b1 by lia. unfold conn0. cbn [hd].
+        rewrite memb_true by (right; left; reflexivity).
+        replace (Nat.eqb b1 b0) with false by (symmetry; apply Nat.eqb_neq; lia).
+        change (List.last (b0 :: b1 :: b2 :: B) 0) with (List.last (b2 :: B) 0).
+        replace (Nat.eqb b1 (List.last (b2 :: B) 0)) with false by (symmetry; apply Nat.eqb_neq; lia).
+        reflexivity.
+      + replace (S b0 + (b1 - b0 - 1) + 1) with (S b1) by lia.
+        apply map_ext_in. intros i Hi. apply in_seq in Hi. f_equal. symmetry.
+        apply conn0_shift; [exact HI|lia].
+  Qed.
+
+  (* the whole column before the parent's own row is written *)
+  Lemma column_spec B b0 n :
+    incr (b0 :: B) -> B <> [] -> List.last (b0 :: B) 0 < n ->
+    repeat (P 32%N) b0 ++ [P (hs_first st)] ++ tailseg (b0 :: B)
+      ++ repeat (P 32%N) (n - 1 - List.last (b0 :: B) 0)
+    = map (fun i => P (conn0 (b0 :: B) i)) (seq 0 n).
+  Proof.
+    intros HI HN Hn. set (hi := List.last (b0 :: B) 0) in *.
+    assert (Hb : b0 < hi).
+    { destruct B as [|b1 B]; [contradiction|]. destruct HI as [H01 HI].
+      pose proof (incr_le_last b1 B HI b1 (or_introl eq_refl)). unfold hi.
+      change (List.last (b0 :: b1 :: B) 0) with (List.last (b1 :: B) 0). lia. }
+    set (rest := n - 1 - hi). replace n with (b0 + (1 + ((hi - b0) + rest))) by (unfold rest; lia).
+    rewrite !map_seq_app. cbn [Nat.add]. f_equal; [|f_equal; [|f_equal]].
+    - symmetry. apply map_seq_const. intros i Hi. unfold conn0. cbn [hd].
+      rewrite memb_false.
+      + replace (Nat.ltb b0 i) with false by (symmetry; apply Nat.ltb_ge; lia). reflexivity.
+      + intros y [<-|Hy]; [lia|]. pose proof (incr_lt b0 B HI y Hy). lia.
+    - cbn [seq map]. unfold conn0. cbn [hd]. rewrite ?Nat.add_0_r.
+      rewrite memb_true by (left; reflexivity). rewrite Nat.eqb_refl. reflexivity.
+    - rewrite tailseg_spec by assumption. fold hi. replace (b0 + 1) with (S b0) by lia. reflexivity.
+    - symmetry. apply map_seq_const. intros i Hi. unfold conn0. cbn [hd]. fold hi.
+      rewrite memb_false.
+      + replace (Nat.ltb i hi) with false by (symmetry; apply Nat.ltb_ge; lia). rewrite andb_false_r. reflexivity.
+      + intros y Hy. pose proof (incr_le_last b0 B HI y Hy). fold hi in H. lia.
+  Qed.
+End Connectors.
+
+Section ConnectorsOfBlocks.
+  Variables (st : hstyle) (inter : bool) (centered : str).
+
+  Let node_str := hnode_str st inter centered.
+  Let padding := spaces (length node_str).
+
+  (* the prefix column the spec prescribes for a block of n rows *)
+  Definition hprefix_spec (B : list nat) (mid n : nat) : list str :=
+    map (fun i => (if Nat.eqb i mid then node_str else padding) ++ [conn st B mid i]) (seq 0 n).
+
+  (* rows (inside the block) of the children's branch rows *)
+  Definition child_rows (sub : list hblock) : list nat :=
+    let idx := map (fun x : hblock => snd (fst x)) sub in
+    let nrow := map (fun x : hblock => length (fst (fst x))) sub in
+    match sub with
+    | [b0; b1] => if Nat.eqb (length (fst (fst b0)) + snd (fst b1) - snd (fst b0)) 1
+                  then [0; 2] else bidx 0 idx nrow
+    | _ => bidx 0 idx nrow
+    end.
+
+  Definition block_result (sub : list hblock) : list str :=
+    let result := concat (map (fun x : hblock => fst (fst x)) sub) in
+    match sub with
+    | [b0; b1] => if Nat.eqb (length (fst (fst b0)) + snd (fst b1) - snd (fst b0)) 1
+                  then [nth 0 result []; []; nth 1 result []] else result
+    | _ => result
+    end.
+
+  Lemma hconn1 b0 :
+    blk_good b0 ->
+    fst (fst (hassemble st inter centered [b0]))
+    = zip_with (@app N) (hprefix_spec (child_rows [b0]) (blk_mid (hassemble st inter centered [b0]))
+                                      (length (block_result [b0])))
+               (block_result [b0]).
+  Proof.
+    destruct b0 as [[r0 m0] o0]. intros [_ [A0 _]]. unfold blk_rows, blk_mid in A0. cbn [fst snd] in A0.
+    unfold hassemble, child_rows, block_result, blk_mid.
+    cbn [map fst snd forallb hd List.last sum_list fold_right length concat bidx].
+    rewrite ?app_nil_r, ?Nat.add_0_r.
+    replace (length r0 + m0 - length r0) with m0 by lia. rewrite mid_same.
+    f_equal. unfold hprefix_spec.
+    change (if inter then [hs_branch st; 32%N] ++ centered ++ [32%N; hs_branch st]
+            else [hs_branch st; hs_branch st; hs_branch st]) with node_str.
+    fold padding.
+    set (rest := length r0 - 1 - m0).
+    replace (length r0) with (m0 + (1 + rest)) by (unfold rest; lia).
+    rewrite !map_seq_app. cbn [Nat.add]. f_equal; [|f_equal].
+    - symmetry. apply map_seq_const. intros i Hi.
+      replace (Nat.eqb i m0) with false by (symmetry; apply Nat.eqb_neq; lia).
+      unfold conn. cbn [hd List.last memb existsb].
+      replace (Nat.eqb i m0) with false by (symmetry; apply Nat.eqb_neq; lia).
+      replace (Nat.ltb m0 i) with false by (symmetry; apply Nat.ltb_ge; lia). reflexivity.
+    - cbn [seq map]. rewrite ?Nat.add_0_r, Nat.eqb_refl. unfold conn. cbn [hd List.last memb existsb].
+      rewrite !Nat.eqb_refl. reflexivity.
+    - symmetry. apply map_seq_const. intros i Hi.
+      replace (Nat.eqb i m0) with false by (symmetry; apply Nat.eqb_neq; lia).
+      unfold conn. cbn [hd List.last memb existsb].
+      replace (Nat.eqb i m0) with false by (symmetry; apply Nat.eqb_neq; lia).
+      replace (Nat.ltb i m0) with false by (symmetry; apply Nat.ltb_ge; lia).
+      rewrite andb_false_r. reflexivity.
+  Qed.
+
+  Lemma hconn2 b0 b1 :
+    blk_good b0 -> blk_good b1 ->
+    fst (fst (hassemble st inter centered [b0; b1]))
+    = zip_with (@app N) (hprefix_spec (child_rows [b0; b1]) (blk_mid (hassemble st inter centered [b0; b1]))
+                                      (length (block_result [b0; b1])))
+               (block_result [b0; b1]).
+  Proof.
+    destruct b0 as [[r0 m0] o0]. destruct b1 as [[r1 m1] o1].
+    intros [_ [A0 B0]] [_ [A1 B1]]. unfold blk_rows, blk_mid in *. cbn [fst snd] in *.
+    unfold hassemble, child_rows, block_result, blk_mid.
+    cbn [map fst snd forallb hd List.last sum_list fold_right length concat bidx].
+    rewrite ?app_nil_r, ?Nat.add_0_r.
+    replace (length r0 + length r1 + m1 - length r1) with (length r0 + m1) by lia.
+    change (if inter then [hs_branch st; 32%N] ++ centered ++ [32%N; hs_branch st]
+            else [hs_branch st; hs_branch st; hs_branch st]) with node_str.
+    fold padding.
+    destruct (Nat.eqb (length r0 + m1 - m0) 1) eqn:EG.
+    - (* separating row *)
+      apply Nat.eqb_eq in EG. unfold str in *.
+      assert (E0 : length r0 = 1) by lia. assert (E1 : length r1 = 1) by lia.
+      assert (M0 : m0 = 0) by lia. assert (M1 : m1 = 0) by lia. subst m0 m1.
+      cbn [fst snd length]. replace ((0 + 2 - 0) / 2) with 1 by reflexivity.
+      cbn [Nat.add Nat.sub repeat app]. reflexivity.
+    - (* two children, at least three rows *)
+      apply Nat.eqb_neq in EG. cbn [fst snd]. unfold str in *.
+      assert (HL : m0 + 2 <= length r0 + m1) by lia.
+      destruct (mid_bounds m0 (length r0 + m1) HL) as [M1 M2].
+      set (mid := (m0 + (length r0 + m1)) / 2) in *.
+      set (hi := length r0 + m1) in *.
+      f_equal. unfold hprefix_spec. rewrite app_length.
+      set (s1 := mid - m0 - 1). set (s2 := hi - mid - 1). set (rest := length r0 + length r1 - 1 - hi).
+      replace (length r0 + length r1) with (m0 + (1 + (s1 + (1 + (s2 + (1 + rest))))))
+        by (unfold s1, s2, rest; lia).
+      rewrite !map_seq_app. cbn [Nat.add].
+      assert (HB : forall i, memb i [m0; m1 + length r0] = Nat.eqb i m0 || Nat.eqb i hi).
+      { intros i. unfold memb. cbn [existsb]. rewrite orb_false_r. unfold hi.
+        replace (m1 + length r0) with (length r0 + m1) by lia. reflexivity. }
+      assert (HC : forall i, conn st [m0; m1 + length r0] mid i =
+                             if Nat.eqb i m0 || Nat.eqb i hi then
+                               (if Nat.eqb i mid then hs_middle st else if Nat.eqb i m0 then hs_first st
+                                else if Nat.eqb i hi then hs_last st else hs_subseq st)
+                             else if Nat.ltb m0 i && Nat.ltb i hi
+                                  then (if Nat.eqb i mid then hs_split st else hs_stem st) else 32%N).
+      { intros i. unfold conn. rewrite HB. cbn [hd List.last].
+        replace (m1 + length r0) with hi by (unfold hi; lia). reflexivity. }
+      repeat (f_equal; [|]).
+      + symmetry. apply map_seq_const. intros i Hi. rewrite HC.
+        replace (Nat.eqb i mid) with false by (symmetry; apply Nat.eqb_neq; lia).
+        replace (Nat.eqb i m0) with false by (symmetry; apply Nat.eqb_neq; lia).
+        replace (Nat.eqb i hi) with false by (symmetry; apply Nat.eqb_neq; lia).
+        replace (Nat.ltb m0 i) with false by (symmetry; apply Nat.ltb_ge; lia). reflexivity.
+      + cbn [seq map]. rewrite ?Nat.add_0_r, HC, Nat.eqb_refl.
+        replace (Nat.eqb m0 mid) with false by (symmetry; apply Nat.eqb_neq; lia). reflexivity.
+      + symmetry. apply map_seq_const. intros i Hi. unfold s1 in Hi. rewrite HC.
+        replace (Nat.eqb i mid) with false by (symmetry; apply Nat.eqb_neq; lia).
+        replace (Nat.eqb i m0) with false by (symmetry; apply Nat.eqb_neq; lia).
+        replace (Nat.eqb i hi) with false by (symmetry; apply Nat.eqb_neq; lia).
+        replace (Nat.ltb m0 i) with true by (symmetry; apply Nat.ltb_lt; lia).
+        replace (Nat.ltb i hi) with true by (symmetry; apply Nat.ltb_lt; lia). reflexivity.
+      + cbn [seq map]. replace (m0 + 1 + s1) with mid by (unfold s1; lia). rewrite HC, Nat.eqb_refl.
+        replace (Nat.eqb mid m0) with false by (symmetry; apply Nat.eqb_neq; lia).
+        replace (Nat.eqb mid hi) with false by (symmetry; apply Nat.eqb_neq; lia).
+        replace (Nat.ltb m0 mid) with true by (symmetry; apply Nat.ltb_lt; lia).
+        replace (Nat.ltb mid hi) with true by (symmetry; apply Nat.ltb_lt; lia). reflexivity.
+      + symmetry. apply map_seq_const. intros i Hi. unfold s1, s2 in Hi. rewrite HC.
+        replace (Nat.eqb i mid) with false by (symmetry; apply Nat.eqb_neq; lia).
+        replace (Nat.eqb i m0) with false by (symmetry; apply Nat.eqb_neq; lia).
+        replace (Nat.eqb i hi) with false by (symmetry; apply Nat.eqb_neq; lia).
+        replace (Nat.ltb m0 i) with true by (symmetry; apply Nat.ltb_lt; lia).
+        replace (Nat.ltb i hi) with true by (symmetry; apply Nat.ltb_lt; lia). reflexivity.
+      + cbn [seq map]. replace (m0 + 1 + s1 + 1 + s2) with hi by (unfold s1, s2; lia). rewrite HC, Nat.eqb_refl.
+        replace (Nat.eqb hi mid) with false by (symmetry; apply Nat.eqb_neq; lia).
+        replace (Nat.eqb hi m0) with false by (symmetry; apply Nat.eqb_neq; lia).
+        rewrite orb_true_r. reflexivity.
+      + symmetry. apply map_seq_const. intros i Hi. unfold s1, s2 in Hi. rewrite HC.
+        replace (Nat.eqb i mid) with false by (symmetry; apply Nat.eqb_neq; lia).
+        replace (Nat.eqb i m0) with false by (symmetry; apply Nat.eqb_neq; lia).
+        replace (Nat.eqb i hi) with false by (symmetry; apply Nat.eqb_neq; lia).
+        replace (Nat.ltb i hi) with false by (symmetry; apply Nat.ltb_ge; lia).
+        rewrite andb_false_r. reflexivity.
+  Qed.
+
+  Lemma conn_off_mid B mid i : Nat.eqb i mid = false -> conn st B mid i = conn0 st B i.
+  Proof. intros H. unfold conn, conn0. rewrite H. reflexivity. Qed.
+
+  Lemma hconn3 (sub : list hblock) :
+    Forall blk_good sub -> 3 <= length sub ->
+    let idx := map (fun x : hblock => snd (fst x)) sub in
+    let nrow := map (fun x : hblock => length (fst (fst x))) sub in
+    let result := concat (map (fun x : hblock => fst (fst x)) sub) in
+    fst (fst (hassemble3 st inter centered sub))
+    = zip_with (@app N) (hprefix_spec (bidx 0 idx nrow) (blk_mid (hassemble3 st inter centered sub))
+                                      (length result)) result.
+  Proof.
+    intros HG H3 idx nrow result.
+    assert (HLen : length idx = length nrow) by (unfold idx, nrow; rewrite !map_length; reflexivity).
+    assert (HF : Forall2 (fun m n => m < n) idx nrow) by (apply blk_good_F2; exact HG).
+    destruct (bidx_props idx nrow 0 HLen HF) as [BI [BB [BL BH]]].
+    assert (Hres : length result = sum_list nrow) by apply concat_rows_length.
+    unfold hassemble3, blk_mid. fold idx. fold nrow. fold result. cbv zeta. cbn [fst snd].
+    rewrite (branch_idxs_bidx idx nrow 0 HLen).
+    set (B := bidx 0 idx nrow) in *.
+    change (if inter then [hs_branch st; 32%N] ++ centered ++ [32%N; hs_branch st]
+            else [hs_branch st; hs_branch st; hs_branch st]) with node_str.
+    fold padding.
+    destruct sub as [|[[r0 m0] o0] [|[[r1 m1] o1] [|b2 rest]]]; try (cbn in H3; lia).
+    set (first := hd 0 idx). set (last_ := sum_list nrow + List.last idx 0 - List.last nrow 0).
+    assert (Hfirst : hd 0 B = first) by (rewrite BH; unfold first, idx; cbn; lia).
+    assert (Hlast : List.last B 0 = last_) by (rewrite BL; unfold last_, idx; cbn [map]; lia).
+    assert (Hm0 : m0 < length r0) by (inversion HG as [|? ? [_ [Hx _]] _]; exact Hx).
+    assert (Hr1 : 1 <= length r1).
+    { inversion HG as [|? ? _ HG1]; inversion HG1 as [|? ? [_ [Hx _]] _]. unfold blk_rows, blk_mid in Hx. cbn in Hx. lia. }
+    assert (Hf0 : first = m0) by reflexivity.
+    assert (HBs : exists b0 b1 b2 Bt, B = b0 :: b1 :: b2 :: Bt).
+    { unfold B, idx, nrow. cbn [map bidx]. eauto. }
+    destruct HBs as [b0 [b1 [b2' [Bt EB]]]].
+    assert (HlastB : first + 2 <= last_ /\ last_ < sum_list nrow).
+    { assert (Hin : In (List.last B 0) B).
+      { rewrite EB. assert (HNe : b0 :: b1 :: b2' :: Bt <> []) by discriminate.
+        apply (@exists_last _ (b0 :: b1 :: b2' :: Bt)) in HNe as [l' [z Hz]].
+        rewrite Hz. rewrite last_last. apply in_or_app. right. left. reflexivity. }
+      apply BB in Hin. rewrite Hlast in Hin. split; [|lia].
+      unfold last_, idx, nrow. cbn [map fst snd].
+      change (List.last (m0 :: m1 :: ?x) 0) with (List.last x 0).
+      change (List.last (length r0 :: length r1 :: ?x) 0) with (List.last x 0).
+      cbn [sum_list fold_right].
+      pose proof (last_le_sum (length (fst (fst b2)) :: map (fun x : hblock => length (fst (fst x))) rest)) as HLS.
+      cbn [fold_right] in HLS. unfold hblock, str in *. lia. }
+    destruct HlastB as [HL2 HLe].
+    destruct (mid_bounds first last_ HL2) as [M1 M2].
+    set (mid := (first + last_) / 2) in *.
+    f_equal.
+    (* the column before the parent's row is written *)
+    assert (HCol : repeat (padding ++ [32%N]) first ++
+                   [padding ++ [hs_first st]] ++
+                   concat (map (fun n : nat => repeat (padding ++ [hs_stem st]) n ++ [padding ++ [hs_subseq st]])
+                               (removelast (zip_with (fun a b : nat => b - a - 1) B (tl B)))) ++
+                   repeat (padding ++ [hs_stem st]) (List.last (zip_with (fun a b : nat => b - a - 1) B (tl B)) 0) ++
+                   [padding ++ [hs_last st]] ++ repeat (padding ++ [32%N]) (sum_list nrow - 1 - last_)
+                   = map (fun i => padding ++ [conn0 st B i]) (seq 0 (length result))).
+    { pose proof (column_spec st padding (b1 :: b2' :: Bt) b0 (length result)) as CS.
+      rewrite <- EB in CS. rewrite Hlast, Hres in CS.
+      specialize (CS BI ltac:(discriminate) HLe).
+      unfold tailseg, diffs in CS. rewrite <- ?EB in CS. rewrite <- ?app_assoc in CS.
+      assert (Eb : b0 = first) by (rewrite <- Hfirst, EB; reflexivity).
+      rewrite Eb in CS. etransitivity; [exact CS|]. rewrite Hres. reflexivity. }
+    rewrite HCol.
+    assert (Hmidn : mid < length result) by lia.
+    assert (Heq : forall (X : str) F, set_nth mid X (map F (seq 0 (length result)))
+                   = map (fun i => if Nat.eqb i mid then X else F i) (seq 0 (length result))).
+    { intros X F. rewrite (set_nth_map_seq F X (length result) 0 mid Hmidn). reflexivity. }
+    unfold hprefix_spec.
+    destruct (existsb (Nat.eqb mid) B) eqn:EM; rewrite !Heq; apply map_ext_in; intros i Hi.
+    - destruct (Nat.eqb i mid) eqn:Ei.
+      + apply Nat.eqb_eq in Ei. subst i. f_equal. unfold conn. unfold memb. rewrite EM, Nat.eqb_refl, EB. reflexivity.
+      + rewrite (conn_off_mid B mid i Ei). reflexivity.
+    - destruct (Nat.eqb i mid) eqn:Ei.
+      + apply Nat.eqb_eq in Ei. subst i. f_equal. unfold conn. unfold memb. rewrite EM, Nat.eqb_refl.
+        rewrite Hfirst, Hlast.
+        replace (Nat.ltb first mid) with true by (symmetry; apply Nat.ltb_lt; lia).
+        replace (Nat.ltb mid last_) with true by (symmetry; apply Nat.ltb_lt; lia). reflexivity.
+      + rewrite (conn_off_mid B mid i Ei). reflexivity.
+  Qed.
+End ConnectorsOfBlocks.
+
+(* the block of a node with children: in front of the children's rows (after the separating row
+   has been inserted) stands exactly the column prescribed by [hprefix_spec]: the node's text on
+   its own row and blanks elsewhere, followed by the connector icon [conn] — child icons on
+   exactly the children's branch rows [child_rows], stems between the first and the last of them,
+   blanks outside *)
+Theorem hassemble_connectors st inter centered (sub : list hblock) :
+  sub <> [] -> Forall blk_good sub ->
+  fst (fst (hassemble st inter centered sub))
+  = zip_with (@app N)
+      (hprefix_spec st inter centered (child_rows sub) (blk_mid (hassemble st inter centered sub))
+                    (length (block_result sub)))
+      (block_result sub).
+Proof.
+  intros HN HG. destruct sub as [|b0 [|b1 [|b2 rest]]]; [contradiction| | |].
+  - apply hconn1. inversion HG; assumption.
+  - inversion HG as [|? ? G0 HG1]; subst. inversion HG1; subst. apply hconn2; assumption.
+  - change (hassemble st inter centered (b0 :: b1 :: b2 :: rest))
+      with (hassemble3 st inter centered (b0 :: b1 :: b2 :: rest)).
+    apply (hconn3 st inter centered (b0 :: b1 :: b2 :: rest) HG). cbn. lia.
+Qed.
+
+Theorem hbranch_connectors st inter ws g n a ks d :
+  is_hole (T g n a ks) = false -> existsb real ks = true ->
+  let sub := map (hbranch st inter ws (S d)) ks in
+  let b := hbranch st inter ws d (T g n a ks) in
+  fst (fst b)
+  = zip_with (@app N)
+      (hprefix_spec st inter (center n (pad_at ws d)) (child_rows sub) (blk_mid b) (length (block_result sub)))
+      (block_result sub).
+Proof.
+  intros Hh Hr sub b. unfold b. rewrite hbranch_eq. cbv zeta. rewrite Hh, Hr. cbn [orb negb].
+  fold sub. apply hassemble_connectors.
+  - unfold sub. destruct ks; [discriminate|discriminate].
+  - unfold sub. apply Forall_forall. intros x Hx. apply in_map_iff in Hx as [k [<- Hk]].
+    apply (hbranch_good st inter ws k (S d)).
+Qed.
